@@ -99,10 +99,7 @@ def run(cmd, timeout=None, mem_gb=None, cwd=None, stdout=None):
 
 
 def read_spec(names):
-    out = []
-    for n in names:
-        out.append('/* ---- spec/%s ---- */\n' % n + open(os.path.join(VERIF, 'spec', n)).read() + '\n')
-    return ''.join(out)
+    return ''.join('#include "%s"\n' % n for n in names)
 
 
 def build_c(job, work, canary=False):
@@ -165,7 +162,7 @@ def pipeline(job, work, canary=False):
         return 'DRIFT', [], 'CONTRACT-DRIFT ' + str(ex), cmds, 0, {}, ''
     base = cfile[:-2]
     gb = base + '.gb'
-    cmd = ['goto-cc', '--function', job.entry, cfile, '-o', gb]
+    cmd = ['goto-cc', '-I', os.path.join(VERIF, 'spec'), '--function', job.entry, cfile, '-o', gb]
     cmds.append(' '.join(cmd))
     rc, out, err, _ = run(cmd, timeout=300)
     if rc != 0:
@@ -329,16 +326,99 @@ def config_dir(work):
     return d
 
 
+def _val(v):
+    v = str(v).strip()
+    if v in ('TRUE', 'true'):
+        return '1'
+    if v in ('FALSE', 'false'):
+        return '0'
+    m = re.fullmatch(r"(-?\d+)[uUlL]*", v)
+    if m:
+        return m.group(1) + ('LL' if m.group(1).startswith('-') else 'ULL')
+    m = re.fullmatch(r"'(.)'", v)
+    if m:
+        return str(ord(m.group(1)))
+    if re.fullmatch(r'-?[0-9.]+(e[-+]?\d+)?f?', v):
+        return v.rstrip('f')
+    return None
+
+
+REPLAY_HEAD = '''// generated by vcheck: replay of a CBMC counterexample against the real engine code
+#define _Bool bool
+#include <cstdio>
+#include <cstdint>
+#include <string>
+#include <type_traits>
+#include "types.h"
+#include "bitboard.h"
+#include "move_bitboards.h"
+#include "zobrist_hash.h"
+#include "position.h"
+#include "movegen.h"
+#include "endgame.h"
+#include "score.h"
+#include "polyglot.h"
+#include "time_manager.h"
+%(spec)s
+#define SETF(lv, v) (lv) = (std::remove_reference_t<decltype(lv)>)(v)
+namespace engine { struct VerifAccess {
+  static void load(Position& P) {
+%(assign)s  }
+  template <class F> static auto with(Position& P, F f) { return f(P); }
+%(access)s
+}; }
+using namespace engine;
+%(globals)s
+int main() {
+  move_bitboards::init(); zobrist::init(); bitbase::init(); endgame::init();
+  Position P;
+  VerifAccess::load(P);
+%(body)s
+  return 0;
+}
+'''
+
+
+def replay_source(job, inputs):
+    spec = ''.join('#include "%s"\n' % n for n in job.spec)
+    assign = []
+    glob = []
+    arrays = {}
+    for lhs, v in inputs.items():
+        val = _val(v)
+        if val is None:
+            continue
+        if '$pad' in lhs:
+            continue
+        if lhs.startswith('W_P.'):
+            path = re.sub(r'\[(\d+)l?\]', r'[\1]', lhs[4:])
+            assign.append('    SETF(P.%s, %s);\n' % (path, val))
+        elif re.fullmatch(r'[WGg]_\w+', lhs):
+            glob.append('%s %s = %s;\n' % ('double' if '.' in val else ('long long' if val.startswith('-') else 'unsigned long long'), lhs, val))
+        else:
+            m = re.fullmatch(r'([WG]_\w+)\[(\d+)l?\]', lhs)
+            if m:
+                arrays.setdefault(m.group(1), {})[int(m.group(2))] = val
+    for name, d in arrays.items():
+        n = max(d) + 1
+        glob.append('unsigned long long %s[%d] = {%s};\n' % (name, n, ', '.join(d.get(i, '0') for i in range(n))))
+    rp = job.replay
+    return REPLAY_HEAD % {'spec': spec, 'assign': ''.join(assign), 'globals': ''.join(glob), 'body': rp.get('body', ''),
+                          'access': rp.get('access', '')}
+
+
 def native_replay(job, failed, work):
     """Run the job's replay program (real engine objects + oracle) on the counterexample inputs.
     Returns (confirmed: bool, text)."""
     if job.replay is None:
         return False, 'no replay driver for this obligation group'
     try:
+        inputs = failed.get('inputs', {})
+        need = job.replay.get('needs', [])
+        if any(not any(k == n or k.startswith(n + '.') or k.startswith(n + '[') for k in inputs) for n in need):
+            return False, 'counterexample gives no usable input assignment (missing %s)' % need
         objs, inc = engine_objects(work)
-        src = job.replay(failed.get('inputs', {}), failed)
-        if src is None:
-            return False, 'counterexample gives no usable input assignment'
+        src = replay_source(job, inputs)
         cpp = os.path.join(work, 'replay_%s.cpp' % job.name.replace('/', '_'))
         open(cpp, 'w').write(src)
         exe = cpp[:-4]
@@ -408,6 +488,8 @@ def run_check(pid, module, tier, seed):
                        'inputs': fp.get('inputs', {}), 'trace_tail': fp.get('trace_tail', []),
                        'confirmed_on_real_code': confirmed, 'replay_output': rtxt, 'commands': r.cmds,
                        'contract': r.job.contracts}, open(path, 'w'), indent=1)
+            if confirmed:
+                print('[replay] %s: CONFIRMED on the real code: %s' % (oname, rtxt.strip().replace('\n', ' | ')[:400]))
             line = 'VIOLATION property=%s replay=%s' % (pid, path)
             if not confirmed:
                 line += ' obligation=%s no-failing-input-found' % oname
